@@ -27,9 +27,42 @@ type goClass struct {
 
 // wgIdent names the WaitGroup a call operates on: "Owner.field" for a field,
 // "local:<fn>:<name>" for a local.
+// throughLocalCopy follows a value read from a local variable (possibly one
+// captured by a closure) that was assigned exactly once back to what was
+// assigned: `wg, rsp := c.wg, c.rsp; go func() { wg.Wait(); close(rsp) }()`.
+func throughLocalCopy(v ssa.Value) ssa.Value {
+	for i := 0; i < 4; i++ {
+		u, ok := v.(*ssa.UnOp)
+		if !ok || u.Op != token.MUL {
+			return v
+		}
+		var cell *ssa.Alloc
+		switch a := u.X.(type) {
+		case *ssa.Alloc:
+			cell = a
+		case *ssa.FreeVar:
+			cell, _ = ir.BindingOf(a).(*ssa.Alloc)
+		}
+		if cell == nil {
+			return v
+		}
+		stores := ir.CellStores(cell)
+		if len(stores) != 1 {
+			return v
+		}
+		v = stores[0].Val
+	}
+	return v
+}
+
 func wgIdent(recv ssa.Value) string {
 	if p, ok := facts.PathOf(recv); ok {
 		return p.String()
+	}
+	if w := throughLocalCopy(recv); w != recv {
+		if p, ok := facts.PathOf(w); ok {
+			return p.String()
+		}
 	}
 	v := recv
 	for i := 0; i < 6; i++ {
@@ -269,6 +302,9 @@ func isCloserBody(body *ssa.Function) (wg string, closed string, ok bool) {
 		}
 		if b, isB := call.Call.Value.(*ssa.Builtin); isB && b.Name() == "close" && sawWait {
 			if p, ok := facts.PathOf(call.Call.Args[0]); ok {
+				return wg, p.String(), true
+			}
+			if p, ok := facts.PathOf(throughLocalCopy(call.Call.Args[0])); ok {
 				return wg, p.String(), true
 			}
 		}
